@@ -787,7 +787,8 @@ async fn check_c02(rep: &mut Reporter, w: &World, d: usize, backend: &str, sync_
                 let mut dd = vec![];
                 snapshot::diff_folder(served, &replayed, f, &mut dd);
                 if let Some(first) = dd.first() {
-                    rep.violation(&format!("C02:{backend}:after_sync:replay_vs_served:{}", first.class), &format!("device {d} after sync ({sync_class}): {}", first.detail), ctx.clone());
+                    let why = name_trigger(&a, f, served, first.class).await;
+                    rep.violation(&format!("C02:{backend}:after_sync:replay_vs_served:{}{why}", first.class), &format!("device {d} after sync ({sync_class}): {}", first.detail), ctx.clone());
                 }
             }
             Err(e) => rep.violation(&format!("C02:{backend}:after_sync:replay:{}", e.class), &format!("device {d} after sync ({sync_class}): {}", e.detail), ctx.clone()),
@@ -798,12 +799,44 @@ async fn check_c02(rep: &mut Reporter, w: &World, d: usize, backend: &str, sync_
                 let mut dd = vec![];
                 snapshot::diff_folder(served, &mirror, f, &mut dd);
                 if let Some(first) = dd.first() {
-                    rep.violation(&format!("C02:{backend}:after_sync:mirror_vs_served:{}", first.class), &format!("device {d} after sync ({sync_class}): {}", first.detail), ctx.clone());
+                    let why = name_trigger(&a, f, served, first.class).await;
+                    rep.violation(&format!("C02:{backend}:after_sync:mirror_vs_served:{}{why}", first.class), &format!("device {d} after sync ({sync_class}): {}", first.detail), ctx.clone());
                 }
             }
             Err(e) => rep.violation(&format!("C02:{backend}:after_sync:mirror:{}", e.class), &format!("device {d} after sync ({sync_class}): {}", e.detail), ctx.clone()),
         }
     }
+}
+
+/// Shape of a folder-name mismatch: the served name was never written to the folder's
+/// own log (it comes from an account-level RenameFolder event only, which happens when
+/// a hard conflict replaced the folder log that held the matching SetVaultName).
+async fn name_trigger(a: &sos_account::LocalAccount, f: &sos_core::VaultId, served: &snapshot::FolderView, class: &str) -> &'static str {
+    use futures::StreamExt;
+    use sos_core::events::{EventLog, WriteEvent};
+    use sos_sync::StorageEventLogs;
+    if class != "folder_name" {
+        return "";
+    }
+    let Ok(log) = a.folder_log(f).await else { return "" };
+    let log = log.read().await;
+    let stream = log.event_stream(false).await;
+    futures::pin_mut!(stream);
+    while let Some(item) = stream.next().await {
+        let Ok((_, event)) = item else { return "" };
+        match event {
+            WriteEvent::SetVaultName(n) if n == served.name => return "",
+            WriteEvent::CreateVault(buf) => {
+                if let Ok(v) = sos_core::decode::<sos_vault::Vault>(&buf).await {
+                    if v.name() == served.name {
+                        return "";
+                    }
+                }
+            }
+            _ => {}
+        }
+    }
+    ":name_only_in_account_log"
 }
 
 /// C20 after a sync on device `d`: live index == recount from the served folders == rebuild.
